@@ -143,6 +143,11 @@ func ZZ_C17_Read(rsize, wsize, big int) {
 	var got []byte
 	psize := []int{1, 3, 20}[vrt.Choose(3)]
 	for i := 0; i < 48 && len(got) < n; i++ {
+		if big == 0 {
+			psize = []int{2, 20}[vrt.Choose(2)] // mix short reads (leave data buffered) with reads larger than the buffer
+		} else if i > 0 {
+			psize = 20
+		}
 		p := make([]byte, psize)
 		k, err := tr.Read(p)
 		vrt.Assert(k >= 0 && k <= len(p), "read-count-in-range")
